@@ -18,6 +18,9 @@ What the transport does that gloo does not (this is the point of it):
     real gloo turns each of these into a hang, a process abort (SIGABRT), a `ValueError`
     raised before the collective, or — for a misaddressed broadcast — `[None]` delivered to everyone;
   * never hangs: a rendezvous that does not complete within `timeout` raises `TransportTimeout`.
+Roots keep torch's semantics: `dst=` / `src=` are GLOBAL ranks; `get_global_rank(group, r)` / `get_group_rank` /
+`get_process_group_ranks` translate for the sentinel groups (synclib's `_to_global_rank` relies on the first).
+Like gloo, the transport refuses tensor dtypes gloo does not carry (`RuntimeError: Invalid scalar type`, e.g. int16).
 Sub-groups are sentinel `Group` objects (member list of global ranks, in group-rank order).
 Optional seeded arrival jitter shuffles the order in which ranks reach each rendezvous.
 """
@@ -82,6 +85,11 @@ _PATCHED = ["is_available", "is_initialized", "get_world_size", "get_rank", "get
 
 def _dt(t: torch.dtype) -> str:
     return str(t).replace("torch.", "")
+
+
+# what ProcessGroupGloo carries (checked against real gloo: harness/props/c15.py transport_selftest + thorough tier)
+GLOO_DTYPES = {torch.float16, torch.bfloat16, torch.float32, torch.float64, torch.uint8, torch.int8, torch.int32, torch.int64,
+               torch.bool}
 
 
 class World:
@@ -272,6 +280,10 @@ class World:
     def get_process_group_ranks(self, group):
         return list(self._members(group))
 
+    def _check_dtype(self, tensor):
+        if self.backend == "gloo" and tensor.dtype not in GLOO_DTYPES:
+            raise RuntimeError("Invalid scalar type")
+
     def all_gather(self, tensor_list, tensor, group=None, async_op=False):
         ms = self._members(group)
         if len(tensor_list) != len(ms):
@@ -279,6 +291,7 @@ class World:
         for o in tensor_list:
             if o.dtype != tensor.dtype or tuple(o.shape) != tuple(tensor.shape):
                 raise RuntimeError("all_gather: output tensor does not match the input tensor's dtype/size")
+        self._check_dtype(tensor)
         res = self._exchange(group, _Call("all_gather", _dt(tensor.dtype), tuple(tensor.shape), None, tensor.detach().clone()))
         if res is not None:
             for o, d in zip(tensor_list, res):
@@ -298,6 +311,7 @@ class World:
             for o in gather_list:
                 if o.dtype != tensor.dtype:
                     raise ValueError("gather: gather_list dtype differs from tensor dtype")
+        self._check_dtype(tensor)
         res = self._exchange(group, _Call("gather", _dt(tensor.dtype), tuple(tensor.shape), dst, tensor.detach().clone(),
                                           has_out=gather_list is not None))
         if res is not None and gather_list is not None:
